@@ -711,17 +711,11 @@ def _validate(ob, enc, out, model, res, cache, p):
         res['validated'] += 1
 
 
-def _robust(t, env, neg_ok=False):
-    """branch atom evaluates with a margin at env (so the float run takes the same branch).
-    neg_ok (opt-in, Obligation.validate_negated): a negated atom only needs the margin; its truth is
-    checked on the whole condition below (otherwise a path with a negated atom is never validated)"""
-    if t.op == 'not':
-        if not _margin(t.args[0], env, not neg_ok):
-            return False
-    elif t.op in ('and', 'or'):
-        if not all(_margin(a, env) for a in t.args):
-            return False
-    elif not _margin(t, env):
+def _robust(t, env, neg_ok=True):
+    """the branch condition t is TRUE at env under the true transcendental functions (a model may realise
+    free atoms inconsistently with the real functions) and none of its comparison atoms sits within 1e-9 of
+    its boundary (so that the float run takes the same branch)"""
+    if not _margin(t, env):
         return False
     try:
         return bool(T.evalf(t, env))
@@ -731,25 +725,17 @@ def _robust(t, env, neg_ok=False):
 
 def _margin(t, env, truth=True):
     if t.op == 'not':
-        return _margin(t.args[0], env, truth)
+        return _margin(t.args[0], env)
     if t.op in ('and', 'or'):
-        return all(_margin(a, env, truth) for a in t.args)
+        return all(_margin(a, env) for a in t.args)
     if t.op in ('lt', 'le', 'eq'):
         try:
             a = T.evalf(t.args[0], env)
             b = T.evalf(t.args[1], env)
         except Exception:
             return False
-        if not abs(a - b) > 1e-9 * max(abs(a), abs(b), 1e-12):
-            return False
-    # the atom must also be TRUE at env under the true transcendental functions (a model may
-    # realise free atoms inconsistently with the real functions)
-    if not truth:
-        return True
-    try:
-        return bool(T.evalf(t, env))
-    except Exception:
-        return False
+        return abs(a - b) > 1e-9 * max(abs(a), abs(b), 1e-12)
+    return True
 
 
 def _handle_witness(ob, enc, c, ct, zc, zbase, v, label, res, cache):
